@@ -34,6 +34,7 @@ type ctx struct {
 	blocks  []string // lexically visible block names ("" = nil block)
 	tags    []string // lexically visible tags
 	inFn    bool     // inside a lambda body (go out of a lambda is an open finding)
+	nvar    string   // inside the recursive function: returned values depend on this variable (the recursion depth)
 	kinds   []string // intervening form kinds from the outermost target candidates to here
 	mutexes map[string]bool
 }
@@ -82,10 +83,14 @@ func (g *gen) exit(c ctx) r.Val {
 	}
 	var cands []cand
 	for i, b := range c.blocks {
+		var v r.Val = int64(100 + i)
+		if c.nvar != "" {
+			v = r.L(sym("+"), sym(c.nvar), int64(100+i)) // differs between the activations of the recursive function
+		}
 		if b == "" {
-			cands = append(cands, cand{form: r.L(sym("return"), g.mv(int64(100+i))), kind: "return"})
+			cands = append(cands, cand{form: r.L(sym("return"), g.mv(v)), kind: "return"})
 		} else {
-			cands = append(cands, cand{form: r.L(sym("return-from"), sym(b), g.mv(int64(100+i))), kind: "return-from"})
+			cands = append(cands, cand{form: r.L(sym("return-from"), sym(b), g.mv(v)), kind: "return-from"})
 		}
 	}
 	if !(c.inFn && h.ExclOn("go-out-of-lambda")) {
@@ -244,10 +249,33 @@ func (g *gen) form(c ctx, d int) r.Val {
 
 func genCase(rt *rapid.T) Case {
 	g := &gen{rt: rt, crossing: map[string]int{}, dir: scratchDir()}
+	var top []string
 	c := ctx{blocks: []string{"b0"}, kinds: []string{"block"}}
+	// one program in four defines a recursive function whose cleanup calls the function again: exits of several
+	// activations of the same code are then under way at the same time (and it is called more than once)
+	walker := rapid.IntRange(0, 3).Draw(rt, "walker") == 0
+	if walker {
+		wc := ctx{blocks: []string{"wb"}, kinds: []string{"block"}, inFn: true, nvar: "n"}
+		body := g.body(wc.with("unwind-protect"), 2)
+		if rapid.Bool().Draw(rt, "walker-return") {
+			body = append(body, r.L(sym("return-from"), sym("wb"), g.mv(r.L(sym("+"), sym("n"), int64(50)))))
+		}
+		def := r.L(sym("defun"), sym("zw"), r.L(sym("n")),
+			r.L(sym("block"), sym("wb"),
+				r.L(append([]r.Val{sym("unwind-protect"), r.L(append([]r.Val{sym("progn")}, body...)...), g.m()},
+					r.L(sym("if"), r.L(sym("<"), int64(0), sym("n")), r.L(sym("zw"), r.L(sym("-"), sym("n"), int64(1)))))...),
+				g.mv(sym("n"))))
+		top = append(top, r.Print(def))
+	}
 	forms := g.body(c, 1)
+	if walker {
+		call := r.L(sym("zw"), int64(rapid.IntRange(0, 2).Draw(rt, "walkdepth")))
+		forms = append([]r.Val{g.mv(call)}, forms...)
+		forms = append(forms, g.mv(r.L(sym("zw"), int64(rapid.IntRange(0, 2).Draw(rt, "walkdepth2")))))
+	}
 	prog := r.L(append([]r.Val{sym("block"), sym("b0")}, forms...)...)
-	return Case{Prog: r.Print(prog)}
+	top = append(top, r.Print(prog))
+	return Case{Prog: strings.Join(top, "\n")}
 }
 
 var (
@@ -354,6 +382,8 @@ func run(c Case) *h.Result {
 	want := m.Run(forms)
 
 	// slip run
+	slip.CurrentPackage.Undefine("zw")
+	defer slip.CurrentPackage.Undefine("zw")
 	scope := slip.NewScope()
 	var setup strings.Builder
 	setup.WriteString("(setq *cnt* 0)")
